@@ -8,7 +8,7 @@ view(bytes) -> {
   "wellformed": bool            workbook part, its rels, every sheet part and every sheet rels part parse (expat)
   "active":  int                activeTab of the first workbookView (0 when absent)
   "sheets": [ {"name": str, "state": "visible"|"hidden"|"veryHidden",
-               "links":  [{"cell": "B2", "url": str, "loc": bool}],   # r:id resolved through the sheet's rels
+               "links":  [{"cell": "B2", "url": str, "loc": bool, "tip": str}],   # r:id resolved through the sheet's rels
                "merges": ["A1:B2", ..],
                "badrid": int} ]                                         # hyperlinks whose r:id does not resolve
   "names":  [ {"name": str, "local": int (-1 = none), "addr": str (element text), "hidden": bool} ]
@@ -101,11 +101,11 @@ def view(data):
                     t = srels.get(r)
                     if t is None:
                         item["badrid"] += 1
-                        item["links"].append({"cell": h.get("ref", ""), "url": "!unresolved " + r, "loc": False})
+                        item["links"].append({"cell": h.get("ref", ""), "url": "!unresolved " + r, "loc": False, "tip": h.get("tooltip", "")})
                     else:
-                        item["links"].append({"cell": h.get("ref", ""), "url": t[1], "loc": False})
+                        item["links"].append({"cell": h.get("ref", ""), "url": t[1], "loc": False, "tip": h.get("tooltip", "")})
                 else:
-                    item["links"].append({"cell": h.get("ref", ""), "url": h.get("location", ""), "loc": True})
+                    item["links"].append({"cell": h.get("ref", ""), "url": h.get("location", ""), "loc": True, "tip": h.get("tooltip", "")})
         out["sheets"].append(item)
     dn = wb.find("{%s}definedNames" % M)
     if dn is not None:
